@@ -195,6 +195,8 @@ pub struct SplineCase {
     pub bc: BcSel,
     pub scale_e: i32,
     pub dd: DDim,
+    pub lay: crate::layout::Lay,
+    pub xlay: crate::layout::Lay,
 }
 
 pub struct SplineOpts {
@@ -231,6 +233,15 @@ impl SplineCase {
         let scale_e = scale_exp::<T>(src);
         let vclass = val_class(src);
         let mut data = values::<T>(src, n * lanes, vclass, scale_e);
+        // constant (flat) lanes: all values equal, zero in half of them
+        for l in 0..lanes {
+            if src.chance(1, 10) {
+                let v = if src.bool() { 0.0 } else { value::<T>(src, vclass, scale_e) };
+                for i in 0..n {
+                    data[i * lanes + l] = v;
+                }
+            }
+        }
         let h_typ = (x[n - 1] - x[0]) / (n - 1) as f64;
         let periodic = match o.periodic {
             Some(p) => p,
@@ -253,7 +264,9 @@ impl SplineCase {
         }
         let rank = 1 + trailing.len();
         let dd = if src.chance(1, 5) { DDim::Dyn } else { DDim::of_rank(rank) };
-        SplineCase { n, axis_class, x, trailing, lanes, data, bc, scale_e, dd }
+        let lay = crate::layout::pick_lay(src);
+        let xlay = crate::layout::pick_lay(src);
+        SplineCase { n, axis_class, x, trailing, lanes, data, bc, scale_e, dd, lay, xlay }
     }
 
     pub fn shape(&self) -> Vec<usize> {
@@ -267,9 +280,9 @@ impl SplineCase {
     }
 
     pub fn build<T: Flt>(&self, extrapolate: bool) -> Result<Box<dyn I1<T>>, Fail> {
-        let xo = if self.axis_class == AxisClass::Index { None } else { Some(arr_1::<T>(&self.x)) };
+        let xo = if self.axis_class == AxisClass::Index { None } else { Some(crate::layout::realise1(arr_1::<T>(&self.x), self.xlay, T::of(-9.0e9))) };
         let strat = Strat1::Spline { extrapolate, bc: self.bc.to_bc::<T>(&self.trailing) };
-        match build1::<T>(xo, arr_d::<T>(&self.shape(), &self.data), self.dd, &strat) {
+        match build1::<T>(xo, crate::layout::realise(arr_d::<T>(&self.shape(), &self.data), self.lay, T::of(-3.5e5)), self.dd, &strat) {
             Some(Ok(i)) => Ok(i),
             Some(Err(e)) => Err(Fail::new("build-failed", format!("valid spline input rejected: {e}"))),
             None => Err(Fail::new("oracle-bug", "spline case not expressible in its dimension type")),
@@ -287,6 +300,7 @@ impl SplineCase {
         });
         out.class(format!("trailing_axes:{}", self.trailing.len()));
         out.class(format!("ddim:{}", self.dd.name()));
+        out.class(format!("datalayout:{}", self.lay.0.name()));
         if !is_uniform(&self.x) {
             out.class("axis:non-uniform");
             let n = self.n;
@@ -295,6 +309,12 @@ impl SplineCase {
             }
             if self.x[n - 1] - self.x[n - 2] != self.x[n - 2] - self.x[n - 3] {
                 out.class("h[n-2]!=h[n-3]");
+            }
+        }
+        for l in 0..self.lanes {
+            let d = self.lane_data(l);
+            if d.iter().all(|v| *v == d[0]) {
+                out.class("lane:constant");
             }
         }
         if !self.bc.is_periodic() {
